@@ -28,10 +28,10 @@ type Spec struct {
 	DeclareCL bool  `json:"declare_content_length"`
 
 	// h2raw framing
-	Pads         []int `json:"pads,omitempty"`          // per piece: -1 not padded, else pad length 0..255
-	HeaderCuts   []int `json:"header_cuts,omitempty"`   // sizes of HEADERS/CONTINUATION fragments (rest in last)
+	Pads         []int `json:"pads,omitempty"`        // per piece: -1 not padded, else pad length 0..255
+	HeaderCuts   []int `json:"header_cuts,omitempty"` // sizes of HEADERS/CONTINUATION fragments (rest in last)
 	EndOnEmpty   bool  `json:"end_stream_on_empty_data"`
-	HeadersPad   int   `json:"headers_pad"`             // -1 none
+	HeadersPad   int   `json:"headers_pad"` // -1 none
 	WithPriority bool  `json:"headers_priority"`
 	// h1 framing
 	ChunkExt  bool `json:"chunk_ext,omitempty"`
